@@ -9,6 +9,7 @@ import (
 	"os"
 	"sort"
 	"strings"
+	"sync"
 	"testing"
 	"testing/synctest"
 	"time"
@@ -48,15 +49,24 @@ type RunCtx struct {
 	Pairs        map[string]struct{}
 	Leaked       int
 	FullTrace    string
+
+	mu sync.Mutex
 }
 
+// Count and Hit may be called from host builtins that run in parallel windows.
 func (rc *RunCtx) Count(name string, n int) {
 	if n != 0 {
+		rc.mu.Lock()
 		rc.Counters[name] += n
+		rc.mu.Unlock()
 	}
 }
 
-func (rc *RunCtx) Hit(name string) { rc.Counters[name]++ }
+func (rc *RunCtx) Hit(name string) {
+	rc.mu.Lock()
+	rc.Counters[name]++
+	rc.mu.Unlock()
+}
 
 // Violate records the first violation of the run.
 func (rc *RunCtx) Violate(class, format string, args ...any) {
@@ -265,7 +275,7 @@ type ReplayFile struct {
 	Regenerate bool `json:"regenerate,omitempty"`
 	// RaceBuild: the violation was found by a worker built with the race
 	// detector (parallel-window phases); replay uses the same kind of build.
-	RaceBuild bool `json:"race_build,omitempty"`
+	RaceBuild  bool `json:"race_build,omitempty"`
 	Attempts   int  `json:"minimise_attempts"`
 	DrawsTotal int  `json:"draws_total"`
 }
